@@ -77,7 +77,7 @@ func famC13(rn *Runner) {
 		hw, vw := mkHeld("w", true)
 		// two binding environments that differ in what the prefixes and variables mean
 		envA, envB := stdEnv(), stdEnv()
-		envB.NS = []NSBind{{"p", "urn:u2"}, {"q", "urn:u1"}, {"r", "urn:x"}, {"xml", xmlNS}}
+		envB.NS = []NSBind{{"p", "urn:u2"}, {"q", "urn:u1"}, {"r", "urn:x"}} // (xml is NOT bound here: nothing may bind it behind the caller's back)
 		for _, e := range []*Env{envA, envB} {
 			e.Vars = append(e.Vars, VarBind{"", "v", vv}, VarBind{"", "w", vw})
 			e.Funs = append(e.Funs, FunBind{"", "nodes", UFun{Kind: "ctxnodes"}})
@@ -87,10 +87,24 @@ func famC13(rn *Runner) {
 		envA.Funs = append(envA.Funs, FunBind{"urn:u1", "f", UFun{Kind: "argcount"}})
 		envB.Funs = append(envB.Funs, FunBind{"urn:u2", "f", UFun{Kind: "ctxpos"}})
 		// the library must receive the caller's slices themselves (with their spare capacity)
+		// ... every other call through ONE ContextApply that installs the caller's own three maps (what the command does):
+		// those maps are the caller's data too, and must hold exactly what they held
+		own := map[*Env]*ownMaps{}
+		calls := 0
 		settings := func(e *Env) []xsel.ContextApply {
 			s := e.Settings(d.Root)
 			s = append(s, xsel.WithVariable("v", hv.arr[:hv.n]), xsel.WithVariable("w", hw.arr[:hw.n]))
-			return s
+			calls++
+			if calls%2 == 0 {
+				return s
+			}
+			if own[e] == nil {
+				own[e] = newOwnMaps(s)
+			}
+			o := own[e]
+			return []xsel.ContextApply{func(c *xsel.ContextSettings) {
+				c.NamespaceDecls, c.Variables, c.FunctionLibrary = o.ns, o.vars, o.funs
+			}}
 		}
 		g := NewExprGen(r.Fork(), d, envA)
 		type hcall struct {
@@ -195,6 +209,16 @@ func famC13(rn *Runner) {
 			}
 			c.impl = impl
 			hist = append(hist, c)
+			bad := ""
+			for _, o := range own {
+				if s := o.changed(); s != "" {
+					bad = s
+				}
+			}
+			if bad != "" {
+				fail("the binding maps keep exactly their contents", bad)
+				break
+			}
 			if s := hv.changed(); s != "" {
 				fail("a node-set passed in as a variable keeps its contents and order", s)
 				break
@@ -238,4 +262,41 @@ func firstDiff(a, b string) string {
 		return len(s)
 	}
 	return fmt.Sprintf("...%s  became  ...%s", a[lo:end(a)], b[lo:end(b)])
+}
+
+// ownMaps: the three binding maps as a caller owns them, and what they held when he handed them over
+type ownMaps struct {
+	ns     map[string]string
+	vars   map[xsel.XmlName]xsel.Result
+	funs   map[xsel.XmlName]xsel.Function
+	nsSnap map[string]string
+	nvars  int
+	nfuns  int
+}
+
+func newOwnMaps(settings []xsel.ContextApply) *ownMaps {
+	c := xsel.ContextSettings{NamespaceDecls: map[string]string{}, Variables: map[xsel.XmlName]xsel.Result{}, FunctionLibrary: map[xsel.XmlName]xsel.Function{}}
+	for _, s := range settings {
+		s(&c)
+	}
+	o := &ownMaps{ns: c.NamespaceDecls, vars: c.Variables, funs: c.FunctionLibrary, nsSnap: map[string]string{}, nvars: len(c.Variables), nfuns: len(c.FunctionLibrary)}
+	for k, v := range o.ns {
+		o.nsSnap[k] = v
+	}
+	return o
+}
+
+func (o *ownMaps) changed() string {
+	if len(o.vars) != o.nvars || len(o.funs) != o.nfuns {
+		return fmt.Sprintf("Exec changed the caller's own binding maps: %d variables (were %d), %d functions (were %d)", len(o.vars), o.nvars, len(o.funs), o.nfuns)
+	}
+	if len(o.ns) != len(o.nsSnap) {
+		return fmt.Sprintf("Exec changed the caller's own namespace map: %d bindings, were %d", len(o.ns), len(o.nsSnap))
+	}
+	for k, v := range o.nsSnap {
+		if w, ok := o.ns[k]; !ok || w != v {
+			return fmt.Sprintf("Exec changed the caller's own namespace map: prefix %q is now bound to %q (ok=%v), was %q", k, w, ok, v)
+		}
+	}
+	return ""
 }
